@@ -179,22 +179,33 @@ def obligations(m, files, events):
                 events.index('report') < events.index('dump')))
     exp = expected_entries(m)
     keys = set()
+    # main() merges the optional dictionaries (add-ons, S-DAC-GT) over the four core ones: an optional object that carries an output of the
+    # same name overwrites the core entry (recorded finding: the add-on / S-DAC-GT economics objects inherit every Economics output)
+    last = {}
+    for cn, key, p in exp:
+        last[key] = (cn, p)
     for cn, key, p in exp:
         keys.add(key)
         e = J.get(key)
         if not isinstance(e, dict):
             res.append((f'[{cn}] "{key}": the quantity is in the JSON', False))
             continue
-        res.append((f'[{cn}] "{key}": the JSON value is the quantity the run reports (every element of a series)', same_value(e.get('value'), p.value)))
-        res.append((f'[{cn}] "{key}": the JSON unit is the quantity\'s current unit', unit_ok(e.get('CurrentUnits'), p.CurrentUnits)))
+        over = last[key][0] != cn
+        fid = 'C10-json-optional-outputs-overwrite-core-outputs' if over else None
+        tag = f' [region: an output of the same name exists in {last[key][0]}]' if over else ''
+        res.append((f'[{cn}] "{key}": the JSON value is the quantity the run reports (every element of a series)' + tag, same_value(e.get('value'), p.value), fid))
+        res.append((f'[{cn}] "{key}": the JSON unit is the quantity\'s current unit' + tag, unit_ok(e.get('CurrentUnits'), p.CurrentUnits), fid))
+        if over:
+            res.append((f'[{cn}] "{key}": the JSON entry deviates from the core quantity only by being the {last[key][0]} output of the same name (recorded finding)',
+                        same_value(e.get('value'), last[key][1].value)))
     res.append(('the JSON holds no entry that is not an output of the run', set(J) <= keys))
     return res
 
 
-def concrete(cfg):
+def concrete(cfg, only=None):
     m = c09.prepared(cfg).reset()
     _, files, events = run_main(m, symbolic=False)
-    bad = [n for n, ok in obligations(m, files, events) if ok is False or (not isinstance(ok, bool) and z3.is_false(z3.simplify(ok)))]
+    bad = [o[0] for o in obligations(m, files, events) if (only is None or o[0] == only) and (o[1] is False or (not isinstance(o[1], bool) and z3.is_false(z3.simplify(o[1]))))]
     return bool(bad), {'failed': bad[:8], 'files': sorted(files)}
 
 
@@ -202,6 +213,8 @@ def units(tier):
     cfgs = c09.CONFIGS[tier]
     if tier == 'quick':
         cfgs = cfgs[:4]
+    cfgs = list(cfgs) + [('electricity', 2, 2, 1, {'addon': 1, 'sdac': True}), ('electricity', 2, 2, 1, {'addon': 1})] + \
+        ([('direct-use', 2, 2, 1, {'sdac': True})] if tier == 'thorough' else [])      # every optional output dictionary main() merges, together and alone
     return [{'harness': 'json', 'kind': k, 'L': L, 'T': T, 'K': K, 'variant': x} for (k, L, T, K, x) in cfgs]
 
 
@@ -233,6 +246,7 @@ def run_unit(unit):
             raise pr.error
         m, files, events = pr.value
         harness.reachable(log, pr.ctx, 1500)
-        for name, ok in obligations(m, files, events):
-            harness.discharge(log, pr.ctx, 'JSON: ' + name, ok, zv, lambda inp: concrete(cfg), sample=(n == 1 and 'value is the quantity' in name))
+        for ob in obligations(m, files, events):
+            name, ok, fid = ob[0], ob[1], (ob[2] if len(ob) > 2 else None)
+            harness.discharge(log, pr.ctx, 'JSON: ' + name, ok, zv, lambda inp, name=name: concrete(cfg, only=name), sample=(n == 1 and 'value is the quantity' in name), finding=fid)
     yield log.result()
